@@ -1,5 +1,6 @@
 import Octo.Spec.Kleene
 import Octo.Model.LogicTypecheck
+import Octo.Model.LogicMaybe
 /-!
   Helper lemmas for C11: the lazy evaluation loops equal the loops over argument outcomes, Kleene algebra on
   `Tri`, facts about `Null.Is`, `nullCheck`, `nullCheckIdx`, `findField`.
@@ -472,5 +473,67 @@ theorem eval_var (names : List Nat) (tris : List Tri) (outer : List (List Value)
   have hlt : i < tris.length := by omega
   simp only [materialize, resolveVar, hi, eval, lookupVar, envOf]
   simp [hlt]
+
+/-! ### flat types and the Maybe pass -/
+
+theorem nullIs_toTy_mem (s : FTy) (h : 0 ∈ s) : nullIs (FTy.toTy s) = true := by
+  match s, h with
+  | [a], h =>
+    simp only [List.mem_singleton] at h
+    subst h
+    rfl
+  | [], h => simp at h
+  | a :: b :: rest, h =>
+    show nullIs (.union ((a :: b :: rest).map primTy)) = true
+    rw [nullIs_union]
+    exact ⟨primTy 0, List.mem_map.2 ⟨0, h, rfl⟩, rfl⟩
+
+theorem mem_assertTyF (p : Nat) (s : FTy) (hp : p ≠ anyId) (hp0 : p ≠ 0) (h : 0 ∈ s) : 0 ∈ assertTyF true p s := by
+  have hp' : (p != anyId) = true := by simpa using hp
+  have hp0' : (p != 0) = true := by simpa using hp0
+  simp only [assertTyF, targetF, Bool.true_and, hp', hp0', if_true, List.mem_filter]
+  exact ⟨h, by simp⟩
+
+theorem isF_any (s : FTy) : isF s anyId = 2 := by simp [isF]
+
+/-- whichever way the argument is passed on (bare column or wrapped in the Maybe pass's assertion), a column whose
+    static type admits NULL yields an argument expression whose static type admits NULL -/
+theorem argP_nullable (p : Nat) (s : FTy) (i : Nat) (hp0 : p ≠ 0) (h : 0 ∈ s) :
+    nullIs (argP true p s i).ty = true := by
+  unfold argP
+  split
+  · rename_i hm
+    have hp : p ≠ anyId := by
+      intro he; subst he; rw [isF_any] at hm; simp at hm
+    exact nullIs_toTy_mem _ (mem_assertTyF p s hp hp0 h)
+  · exact nullIs_toTy_mem s h
+
+theorem buildArgs_get (strict : Bool) : ∀ (ps : List Nat) (ss : List FTy) (j i : Nat) (p : Nat) (s : FTy),
+    ps[i]? = some p → ss[i]? = some s → (buildArgs strict ps ss j)[i]? = some (argP strict p s (j + i)) := by
+  intro ps
+  induction ps with
+  | nil => intro ss j i p s hp; simp at hp
+  | cons q qs ih =>
+    intro ss j i p s hp hs
+    cases ss with
+    | nil => simp at hs
+    | cons t ts =>
+      cases i with
+      | zero =>
+        simp only [List.getElem?_cons_zero, Option.some.injEq] at hp hs
+        subst hp hs
+        simp [buildArgs]
+      | succ i =>
+        simp only [List.getElem?_cons_succ] at hp hs
+        simp only [buildArgs, List.getElem?_cons_succ]
+        rw [ih ts (j + 1) i p s hp hs]
+        congr 2; omega
+
+/-- the assertion the Maybe pass inserts for a strict descriptor lets NULL through (its target is `declared | NULL`) -/
+theorem expectedIds_target_null (p : Nat) (hp : p ≠ anyId) (hp0 : p ≠ 0) :
+    (expectedIds (targetF true p).toTy).contains 0 = true := by
+  have hp' : (p != anyId) = true := by simpa using hp
+  have hp0' : (p != 0) = true := by simpa using hp0
+  simp [targetF, hp', hp0', FTy.toTy, expectedIds, primTy, Ty.id]
 
 end Octo.Logic
